@@ -731,7 +731,7 @@ def bounded(payload):
     parts["exhaustive_arithmetic_depth3"] = len(ar)
     for t in ar:
         run(t)
-    samples.append(["pow", ["pow", ["var", "a"], ["var", "b"]], ["var", "a"]])
+    samples.append({"expr": ["pow", ["pow", ["var", "a"], ["var", "b"]], ["var", "a"]]})
 
     # ---- exhaustive depth 2 over the whole operator set ----
     full = exhaustive_full([["var", "a"], ["var", "<state>y"], ["var", "<p>k"], ["int", 2], ["int", -1],
@@ -797,8 +797,8 @@ def bounded(payload):
     # ---- random ----
     for i in range(n_random):
         t = rand_num(rng, rng.randint(2, 4)) if rng.random() < 0.7 else rand_bool(rng, rng.randint(2, 4))
-        if i < 3:
-            samples.append(t)
+        if i < 3 and depth_of(t) >= 2:
+            samples.append({"expr": t})
         run(t)
     parts["random_expressions"] = n_random
 
